@@ -272,6 +272,32 @@ Definition run_decode (a : sx) : sx :=
   | _ => sx_err "decode"
   end.
 
+(* c14.expiry: Wallet.CreateMessageBody on a wallet created WithMessageLifetime:
+   (ver pk opts life cfgvalid seqno msgs seed) -> (expiry seqno message-count) | 'err.
+   life / cfgvalid: () = option not given / zero ValidUntil, else (ns) / (unix seconds).
+   The model's clock reads 0, so a default expiry comes out as the lifetime in
+   seconds; the harness reports the implementation's expiry relative to its clock. *)
+Definition run_expiry (a : sx) : sx :=
+  match a with
+  | SL (SN ver :: SBytes pk :: opts :: life :: cfg :: SN seqno :: SL msgs :: _) =>
+      match ver_of_N ver, msgs_of_sx msgs with
+      | None, Some _ => SA "err"
+      | Some v, Some ms =>
+          let sign (_ : unit) (_ : bytes) := zeros 512 in
+          out_res (fun d => SL [SN (d_valid d); SN (d_seqno d); sx_nat (List.length (d_msgs d))])
+            (do w <- new_wallet (bytes_to_bits pk) v (opts_of_sx opts);
+             do body <- api_create_message_body unit xhash sign w tt (lifetime_of (optZ life)) 0 (optZ cfg)
+                          ms seqno op_signed_external 0;
+             match v with
+             | V5Beta => decode_v5beta body | V5R1 => decode_v5r1 body
+             | V4R1 | V4R2 => decode_v4 body | V3R1 | V3R2 => decode_v3 body
+             | HLV2R2 => decode_hl body | _ => Err EWallet
+             end)
+      | _, _ => sx_err "expiry args"
+      end
+  | _ => sx_err "expiry"
+  end.
+
 Definition run (name : string) (a : sx) : sx :=
   let is x := String.eqb name x in
   if is "c14.send" then run_send a
@@ -279,4 +305,5 @@ Definition run (name : string) (a : sx) : sx :=
   else if is "c14.verify" then run_verify a
   else if is "c14.v5verify" then run_v5verify a
   else if is "c14.decode" then run_decode a
+  else if is "c14.expiry" then run_expiry a
   else sx_err "unknown case kind".
